@@ -6,6 +6,223 @@ def _c13_case(c):
     return {"line": c}
 
 
+# ---------------------------------------------------------------------------
+# Thorough tier: a sample of the correspondence cases is re-evaluated INSIDE Coq with
+# vm_compute and compared with what the extracted OCaml runner printed (model.txt).
+# This cross-checks the extraction and the OCaml driver, not the implementation.
+
+def _s(h):
+    if h == "-" or h == "":
+        return "(@nil N)"
+    return "[" + "; ".join(str(x) for x in bytes.fromhex(h)) + "]"
+
+
+def _desc3(mt, dg, sz):
+    return "(mkDesc %s %s %s)" % (_s(mt), _s(dg), sz)
+
+
+def _desc_slash(t):
+    a, b_, c = t.split("/")
+    return _desc3(a, b_, c)
+
+
+def _result(tok):
+    if tok == "ok":
+        return "ROk"
+    if tok.startswith("bool:"):
+        return "(RBool %s)" % ("true" if tok[5:] == "1" else "false")
+    if tok.startswith("desc:"):
+        return "(RDesc %s)" % _desc_slash(tok[5:])
+    if tok.startswith("bytes:"):
+        return "(RBytes %s)" % _s(tok[6:])
+    if tok.startswith("db:"):
+        d, c = tok[3:].split(",")
+        return "(RDescBytes %s %s)" % (_desc_slash(d), _s(c))
+    if tok.startswith("descs:"):
+        l = tok[6:]
+        if l == "-":
+            return "(RDescs [])"
+        if "+" in l:
+            return None        # printed sorted; the order inside Coq may differ
+        return "(RDescs [%s])" % _desc_slash(l)
+    return {"err:nf": "(RErr ENotFound)", "err:ref": "(RErr EInvalidRef)", "err:other": "(RErr EOther)"}.get(tok)
+
+
+def _vm_history(t, out):
+    """t = tokens after 'H'; out = model line.  Returns a Coq proposition or None."""
+    it = iter(t)
+    nx = lambda: next(it)
+    main, other, pb, _plain, rst = nx(), nx(), nx(), nx(), nx()
+    mts = [nx() for _ in range(int(nx()))]
+    k = nx()
+    kor = "None"
+    if k != "-":
+        f = nx()
+        c = {"dig-garbage": "KDigGarbage", "dig-drop": "KDigDrop", "len-inc": "KLenInc", "len-drop": "KLenDrop",
+             "type-other": "KTypeOther", "type-garbage": "KTypeGarbage", "type-drop": "KTypeDrop", "loc-drop": "KLocDrop"}.get(f)
+        if f == "dig-other":
+            c = "(KDigOther %s)" % _s(nx())
+        if f == "status":
+            c = "(KStatus %s)" % nx()
+        kor = "(Some (%s, %s))" % (k, c)
+    pool = []
+    for _ in range(int(nx())):
+        pool.append((nx(), nx(), nx()))
+    others = [int(nx()) for _ in range(int(nx()))]
+    ops = []
+    d3 = lambda: _desc3(nx(), nx(), nx())
+    for _ in range(int(nx())):
+        o = nx()
+        if o == "push":
+            d = d3(); ops.append("OPush %s %s" % (d, _s(pool[int(nx())][0])))
+        elif o in ("fetch", "exists", "delete", "preds"):
+            ops.append("%s %s" % ({"fetch": "OFetch", "exists": "OExists", "delete": "ODelete", "preds": "OPreds"}[o], d3()))
+        elif o in ("resolve", "fetchref", "bresolve", "bfetchref"):
+            ops.append("%s %s" % ({"resolve": "OResolve", "fetchref": "OFetchRef", "bresolve": "OBlobResolve", "bfetchref": "OBlobFetchRef"}[o], _s(nx())))
+        elif o == "tag":
+            d = d3(); ops.append("OTag %s %s" % (d, _s(nx())))
+        elif o == "pushref":
+            d = d3(); c = _s(pool[int(nx())][0]); ops.append("OPushRef %s %s %s" % (d, c, _s(nx())))
+        elif o == "mount":
+            d = d3(); g = nx()
+            ops.append("OMount %s %s" % (d, "None" if g == "-" else "(Some %s)" % _s(pool[int(g)][0])))
+        else:
+            return None
+    # H and subject_of as tables over the pool (later entries win, as in the OCaml driver)
+    hfun, sfun = "(b \"sha256:unknown\")", "(Some None)"
+    for c, dg, sj in pool:
+        hfun = "(if str_eqb c %s then %s else %s)" % (_s(c), _s(dg), hfun)
+        sv = "None" if sj == "N" else ("(Some None)" if sj == "-" else "(Some (Some %s))" % _desc_slash(sj))
+        sfun = "(if str_eqb c %s then %s else %s)" % (_s(c), sv, sfun)
+    parts = out.split(" | ")
+    if not parts[0].startswith("notallowed=0") or len(parts) - 1 != len(ops):
+        return None
+    exp = []
+    for p_ in parts[1:]:
+        res, _, tr = p_.partition(" ")
+        r = _result(res)
+        if r is None:
+            return None
+        exp.append("(%d%%nat, %s)" % (0 if tr == "-" else tr.count(";") + 1, r))
+    bit = lambda i: "true" if pb[i] == "1" else "false"
+    prof = "(mkProfile %s %s %s %s %s)" % tuple(bit(i) for i in range(5))
+    call = ("(run_history (fun c => %s) vm_parse_mt (fun c => %s) %s %s %s %s %s %s %s %s)"
+            % (hfun, sfun, _s(main), _s(other), "[" + "; ".join(_s(m) for m in mts) + "]" if mts else "(@nil str)", prof, kor,
+               "[" + "; ".join("(%s, %s)" % (_s(pool[i][1]), _s(pool[i][0])) for i in others) + "]" if others else "(@nil (str * str))",
+               ["RSUnknown", "RSSupported", "RSUnsupported"][int(rst)],
+               "[" + "; ".join(ops) + "]"))
+    call = call.replace("(run_history (fun c => %s) vm_parse_mt (fun c => %s) %s %s [" % (hfun, sfun, _s(main), _s(other)),
+                        "(run_history (fun c => %s) vm_parse_mt (fun c => %s) %s %s [" % (hfun, sfun, _s(main), _s(other)))
+    return ("let out := snd %s in\n  map (fun tr => (length (fst tr), snd tr)) out = [%s] /\\\n"
+            "  forallb (fun tr => forallb (fun qr => allowed (fst qr)) (fst tr)) out = true" % (call, "; ".join(exp)))
+
+
+def _vm_seek(t, out):
+    content = _s(t[0])
+    n = int(t[1])
+    ops, i = [], 2
+    for _ in range(n):
+        if t[i] == "r":
+            ops.append("SRead %s" % t[i + 1]); i += 2
+        elif t[i] == "s":
+            ops.append("SSeek (%s)%%Z %s" % (t[i + 1], ["SeekStart", "SeekCurrent", "SeekEnd"][int(t[i + 2])])); i += 3
+        else:
+            ops.append("SClose"); i += 1
+    exp = []
+    for p_ in out.split(" | "):
+        rq, _, o = p_.partition(":")
+        rqs = "(@nil (N * N))" if rq == "-" else "[" + "; ".join("(%s, %s)" % tuple(x.split("-")) for x in rq.split("+")) + "]"
+        if o.startswith("bytes:"):
+            ov = "SBytes %s" % _s(o[6:])
+        elif o.startswith("pos:"):
+            ov = "SPos %s" % o[4:]
+        else:
+            ov = {"err": "SErr", "closed": "SClosed"}[o]
+        exp.append("(%s, %s)" % (rqs, ov))
+    return "rsc_run %s (rsc_open %s (len %s)) [%s] = [%s]" % (content, content, content, "; ".join(ops), "; ".join(exp))
+
+
+def _vm_gram(t, out):
+    m, repo, ek, arg, dg, md, mf, ct, cl, ra, rb, body = t
+    opt = lambda x: "None" if x == "-" else ("(Some (@nil N))" if x == "~" else "(Some %s)" % _s(x))
+    ep = {"blob": "EBlob %s" % _s(arg), "man": "EManifest %s" % _s(arg), "up": "EUploads", "refs": "EReferrers %s" % _s(arg)}.get(ek)
+    if ek == "sess":
+        ep = "ESession %s" % arg
+    un = lambda x: "(@nil N)" if x in ("-", "~") else _s(x)
+    mount = "None" if md == "-" else "(Some (%s, %s))" % (un(md), un(mf))
+    q = "(mkReq %s %s (%s) %s %s None %s %s %s %s)" % (
+        m, _s(repo), ep, opt(dg), mount, opt(ct), "None" if cl == "-" else "(Some %s)" % cl,
+        "None" if ra == "-" else "(Some (%s, %s))" % (ra, rb), _s(body))
+    return "allowed %s = %s" % (q, "true" if out == "allowed=1" else "false")
+
+
+def _vm_loc(t, out):
+    exp = "None" if out == "UNJUDGED" else "Some %s" % _s(out[4:])
+    return "put_url_str %s %s %s %s %s = %s" % (_s(t[0]), _s(t[1]), _s(t[2]), _s(t[3]), _s(t[4]), exp)
+
+
+_VM_PRELUDE = """From Oras Require Import Base.Prelude Base.Regex Model.Reference Model.Registry Model.RemoteClient Model.Location.
+Definition vm_parse_mt (s : str) : option str :=
+  match s with [] => None | _ => if str_eqb (firstn 7 s) (b "garbage") then None else Some s end.
+"""
+
+
+def _c13_vm_sample(d, tier, coq, build):
+    import os, subprocess, collections
+    if tier != "thorough":
+        return []
+    outs = {}
+    with open(os.path.join(d, "model.txt")) as f:
+        for l in f:
+            i, _, o = l.rstrip("\n").partition(" ")
+            outs[i] = o
+    quota = {"H": 70, "S": 120, "A": 120, "U": 80}
+    maxlen = {"H": 5000, "S": 400, "A": 2000, "U": 2000}
+    total, got, stride, goals = collections.Counter(), collections.Counter(), collections.Counter(), []
+    with open(os.path.join(d, "cases.txt")) as f:
+        for l in f:
+            c = l.split(" ", 2)
+            if len(c) > 1 and c[1] in quota and len(l) <= maxlen[c[1]]:
+                total[c[1]] += 1
+    with open(os.path.join(d, "cases.txt")) as f:
+        for l in f:
+            i, _, c = l.rstrip("\n").partition(" ")
+            t = c.split(" ")
+            k = t[0]
+            if k not in quota or got[k] >= quota[k] or len(l) > maxlen[k] or i not in outs:
+                continue
+            stride[k] += 1
+            if (stride[k] - 1) % max(1, total[k] // quota[k]) != 0:
+                continue
+            o = outs[i]
+            if k != "U" and o.startswith("UNJUDGED"):
+                continue
+            try:
+                g = {"H": _vm_history, "S": _vm_seek, "A": _vm_gram, "U": _vm_loc}[k](t[1:], o)
+            except Exception:
+                g = None
+            if g:
+                got[k] += 1
+                goals.append((i, g))
+    vdir = os.path.join(build, "vm")
+    os.makedirs(vdir, exist_ok=True)
+    vf = os.path.join(vdir, "C13_cases.v")
+    with open(vf, "w") as f:
+        f.write(_VM_PRELUDE)
+        for i, g in goals:
+            f.write("\n(* %s *)\nGoal %s.\nProof. vm_compute. repeat split; reflexivity. Qed.\n" % (i, g))
+    p = subprocess.run(["coqc", "-R", coq, "Oras", "-w", "-notation-overridden", vf], cwd=vdir, timeout=1800,
+                       stdout=subprocess.PIPE, stderr=subprocess.STDOUT, text=True)
+    with open(os.path.join(d, "vm_sample.txt"), "w") as f:
+        f.write("%d goals %s rc=%d\n%s" % (len(goals), dict(got), p.returncode, p.stdout[-3000:]))
+    if p.returncode != 0:
+        return ["vm_compute re-evaluation of %d sampled cases inside Coq disagrees with the extracted runner (or does not type-check): %s"
+                % (len(goals), p.stdout[-1200:])]
+    if len(goals) < 150:
+        return ["vm_compute sample too small: %d goals %s" % (len(goals), dict(got))]
+    return []
+
+
 CONFIG = {
     "properties_file": "Properties/C13.v",
     "proof_files": ["Base/Prelude.v", "Base/Regex.v", "Proofs/Reference.v", "Proofs/RemoteClient.v",
@@ -16,6 +233,7 @@ CONFIG = {
     "ml_main": "c13_main.ml",
     "harness": "c13",
     "case_to_replay": _c13_case,
+    "post_model": _c13_vm_sample,
     "timeout_thorough": 3600,
     "assumptions": [
         "the hash function is a parameter H of the models (SHA-256 in the harness); the refinement theorem only needs that H yields well-formed digests (no collision-freeness): the body digest itself is checked by the consumer (C05)",
